@@ -2,3 +2,4 @@ import Driver.Container
 import Driver.RowPipe
 import Driver.Anim
 import Driver.Opts
+import Driver.VP8L
